@@ -32,6 +32,7 @@ REQUIRED = [
     "edit.host_header_points_to_destination",
     "edit.authority_points_to_destination",
     "edit.host_port_reflect_edit",
+    "url.same_destination_other_scheme_with_host_or_authority",
 ]
 RULE = (
     "case = url (one generated valid URL assigned to a request in a random initial state) or edits (1..6 host/port/url "
@@ -418,6 +419,8 @@ def run(ctx):
         base = {"version": version, "had_host_header": had_host, "had_authority": had_auth, "initial": snapshot(req)}
         if r.random() < 0.65:
             g = gen_url(r, same_as=req)
+            if g["port_form"].endswith("-flip") and (had_host or had_auth):
+                ctx.count("url.same_destination_other_scheme_with_host_or_authority")
             as_bytes = g["url"].isascii() and r.random() < 0.25
             check_url_assign(ctx, req, g, had_host, had_auth, {"kind": "url", **base}, as_bytes)
             nontrivial = g["host_class"] != "dns" or g["port_form"] != "absent" or bool(g["feats"])
@@ -434,6 +437,8 @@ def run(ctx):
             wit = {"kind": "edits", **base, "step": step, "edits": log[-6:]}
             if k == "url":
                 g = gen_url(r, same_as=req)
+                if g["port_form"].endswith("-flip") and (had_host or had_auth):
+                    ctx.count("url.same_destination_other_scheme_with_host_or_authority")
                 classes.add(g["host_class"])
                 log.append(("url", g["url"]))
                 wit["edits"] = log[-6:]
